@@ -111,6 +111,74 @@ def gthRec (n : Nat) : Nat → Nat → M α → List α
       let xs := gthRec n fuel (k + 1) A'
       dotCol A' k xs :: xs
 
+/-! ### the same algorithm with the evaluation order of its sums and dot products left open
+
+  `gth_solve` contains three kinds of multi-term operations: the pivot-row sum `np.sum(A[k,k+1:n])`,
+  the back-substitution dot product `np.dot(x[k+1:n], A[k+1:n,k])` and the normalising sum
+  `np.sum(x)`.  The Numba kernel evaluates them left to right; NumPy sums pairwise and hands the dot
+  product to BLAS.  `Ord` makes them parameters; `seqOrd` and `npOrd` are the two instances the driver
+  runs (`QE.C02.gthSolve_eq_seqOrd`, `gthSolveNp_eq_npOrd`); `treeOrd` evaluates along arbitrary
+  binary trees (any bracketing of any permutation). -/
+
+structure Ord (α : Type) where
+  sumRow : List α → α
+  dot : List α → List α → α
+  norm : List α → α
+
+/-- the terms `A[k, k+1:n]` -/
+def rowTerms (n : Nat) (A : M α) (k : Nat) : List α :=
+  (List.range (n - (k + 1))).map fun t => A.get k (k + 1 + t)
+
+/-- the terms `A[k+1:k+1+m, k]` -/
+def colTerms (A : M α) (k m : Nat) : List α :=
+  (List.range m).map fun t => A.get (k + 1 + t) k
+
+def gthRecO (o : Ord α) (n : Nat) : Nat → Nat → M α → List α
+  | 0, _, _ => [1]
+  | fuel + 1, k, A =>
+    let s := o.sumRow (rowTerms n A k)
+    if s ≤ 0 then [1]
+    else
+      let A' := redStep n A k s
+      let xs := gthRecO o n fuel (k + 1) A'
+      o.dot xs (colTerms A' k xs.length) :: xs
+
+def gthSolveO (o : Ord α) (n : Nat) (A : M α) : List α :=
+  let y := gthRecO o n (n - 1) 0 A
+  let norm := o.norm y
+  y.map (fun v => v / norm) ++ List.replicate (n - y.length) 0
+
+/-- left-to-right dot product accumulated from 0 -/
+def seqDot (a b : List α) : α := sumUpTo (fun t => a.getD t 0 * b.getD t 0) a.length
+
+/-- the Numba kernel's order -/
+def seqOrd : Ord α := ⟨sumList, seqDot, sumList⟩
+
+/-- the order of the model of the NumPy twin (`gthSolveNp`): pairwise normalising sum over all
+    `n` entries, started from NumPy's reduction identity -/
+def npOrd (n : Nat) : Ord α :=
+  ⟨sumList, seqDot, fun y => (0 : α) + npSum (y ++ List.replicate (n - y.length) 0)⟩
+
+/-- a bracketing of a permutation of indices -/
+inductive SumTree where
+  | leaf (i : Nat)
+  | node (l r : SumTree)
+
+def SumTree.leaves : SumTree → List Nat
+  | .leaf i => [i]
+  | .node l r => l.leaves ++ r.leaves
+
+def SumTree.eval (f : Nat → α) : SumTree → α
+  | .leaf i => f i
+  | .node l r => l.eval f + r.eval f
+
+/-- sums and dot products evaluated along the trees `T m` (one per number of terms; the empty sum
+    is 0); products are formed first, then added along the tree -/
+def treeOrd (T : Nat → SumTree) : Ord α :=
+  ⟨fun l => if l.length = 0 then 0 else (T l.length).eval (fun i => l.getD i 0),
+   fun a b => if a.length = 0 then 0 else (T a.length).eval (fun i => a.getD i 0 * b.getD i 0),
+   fun l => if l.length = 0 then 0 else (T l.length).eval (fun i => l.getD i 0)⟩
+
 /-! ### rounding-factor counts of the accuracy theorem (`QE.C02.gthSolve_accuracy`) -/
 
 /-- factors accumulated by the back-substituted block when `f` pivots remain and the active
